@@ -1494,7 +1494,13 @@ class Interp:
         if name in ("int", "float") and args and isinstance(args[0], Opaque) and args[0].tag.startswith("text:"):
             # the text of a literal, kept as a symbol: the conversion is recorded by name, so that an analysis can tell the
             # exact integer conversion from a detour through a float
-            return Num(("fn", f"{name}_of_text", ("atom", args[0].tag)))
+            tag = args[0].tag
+            if self.atom(f"malformed:{tag}"):
+                raise AbsRaise("ValueError", self.site, f"could not convert string to {name}")
+            if name == "int" and (self.atom(f"in:'.':{args[0]!r}") or self.atom(f"in:'e':{args[0]!r}")):
+                # int("5.0") / int("1e3") raise even though the text is a well-formed number
+                raise AbsRaise("ValueError", self.site, "invalid literal for int() with base 10")
+            return Num(("fn", f"{name}_of_text", ("atom", tag)))
         if name == "int":
             v = args[0]
             if isinstance(v, (int, float)):
@@ -1627,6 +1633,50 @@ class Interp:
             if len(args) > 1:
                 return args[1]
             raise AbsRaise("StopIteration", self.site, "next() on an exhausted iterator")
+        if name == "vars" and len(args) == 1 and isinstance(args[0], (Node, Rec)):
+            # the instance dictionary: the attributes the __init__ chain of the object's class assigns on self, plus what
+            # was stored on it since (read through the ordinary field access, so lazily materialised payloads are included)
+            obj = args[0]
+            names: List[str] = []
+            if isinstance(obj, Node):
+                cell = self.cell(obj)
+                kinds = sorted(self.kinds_of(cell))
+                if len(kinds) != 1:
+                    lst = kinds
+                    i = self.choose(len(lst), f"class({cell.cid})", [k.replace("Expression", "") for k in lst])
+                    self.refine_node(cell, frozenset([lst[i]]))
+                    kinds = [lst[i]]
+                cname = kinds[0]
+                extra = [k for k in cell.cur if not k.startswith("__")]
+            else:
+                cname = obj.cls.name
+                extra = list(obj.fields)
+            if self._slots_of(cname) is not None:
+                raise AbsRaise("TypeError", self.site, "vars() argument must have __dict__ attribute")
+            for c in reversed(self.prog.mro(self.prog.cls(cname))):
+                m = c.methods.get("__init__")
+                if m is None:
+                    continue
+                for n in ast.walk(m.node):
+                    if isinstance(n, (ast.Assign, ast.AnnAssign)):
+                        for t in (n.targets if isinstance(n, ast.Assign) else [n.target]):
+                            if isinstance(t, ast.Attribute) and isinstance(t.value, ast.Name) and t.value.id == "self" \
+                                    and t.attr not in names:
+                                names.append(t.attr)
+            for k in extra:
+                if k not in names:
+                    names.append(k)
+            d = Dct()
+            for k in names:
+                v = self.getattr_(obj, k, default=_MISSING)
+                if v is not _MISSING and not isinstance(v, (Bound, Fn)):
+                    d.items[k] = v
+            return d
+        if name == "setattr" and len(args) == 3 and isinstance(args[1], str):
+            self.setattr_(args[0], args[1], args[2])
+            return None
+        if name == "delattr":
+            raise Unsupported(f"delattr at {self.site}")
         if name == "frozenset":
             return self.call_builtin("set", args, kwargs)
         if name == "dict":
@@ -1854,6 +1904,8 @@ class Interp:
 
     # ------------------------------------------------------------------ attribute access
     def getattr_(self, obj, attr: str, default=_MISSING, probe: bool = False):
+        if attr == "__dict__":
+            raise Unsupported(f"__dict__ of {obj!r} at {self.site}: reflective access is not modelled")
         if isinstance(obj, Node):
             cell = self.cell(obj)
             if attr == "__class__":
@@ -1980,13 +2032,16 @@ class Interp:
         if type(obj).__name__ == "MatchObj" and type(obj).__module__.endswith("regex"):
             if attr in ("group", "groups", "start", "end", "span"):
                 return Bound(obj, _StrMethod("match:" + attr))
-        if isinstance(obj, (SymStr, SymChar)) and attr in ("startswith", "endswith", "lower", "upper", "casefold"):
+        if isinstance(obj, (SymStr, SymChar)) and attr in ("startswith", "endswith", "lower", "upper", "casefold", "strip",
+                                                           "lstrip", "rstrip"):
             return Bound(obj, _StrMethod("sym:" + attr))
         if isinstance(obj, (SymStr, SymChar)) and attr in ("isdigit", "isalpha", "isspace", "isalnum", "isupper", "islower",
                                                            "isnumeric", "isdecimal", "isascii"):
             return Bound(obj, _StrMethod("symtest:" + attr))
         if isinstance(obj, Num) and attr == "is_integer":
             return Bound(obj, _StrMethod("num:is_integer"))
+        if isinstance(obj, Ident) and attr in ("lower", "upper", "casefold", "strip", "title", "capitalize", "swapcase"):
+            return Bound(obj, _StrMethod("ident:" + attr))
         if isinstance(obj, FactorDict):
             if attr in ("keys",):
                 return Bound(obj, _StrMethod("keys"))
@@ -3021,7 +3076,7 @@ def _return_index(fn: ast.FunctionDef, st: ast.Return) -> int:
 _BUILTINS = {"all", "any", "sorted", "isinstance", "len", "bool", "print", "str", "repr", "type", "list", "tuple", "set", "int", "float",
              "abs", "min", "max", "range", "enumerate", "getattr", "hasattr", "super", "id", "dict", "zip", "reversed", "map",
              "filter", "sum", "chr", "ord", "round", "divmod", "pow", "bin", "hex", "oct", "frozenset", "NotImplemented",
-             "iter", "next"}
+             "iter", "next", "vars", "setattr", "delattr"}
 _EXC_NAMES = {"ValueError", "Exception", "NotImplementedError", "TypeError", "IndexError", "KeyError",
               "AssertionError", "AttributeError", "EnvironmentError", "RuntimeError"}
 
@@ -3062,6 +3117,13 @@ Interp.call_function = _call_function  # type: ignore
 def _call_builtin_method(self: Interp, info, args, kwargs):
     obj, rest = args[0], args[1:]
     n = info.name
+    if n.startswith("ident:"):
+        # the case-mapped / trimmed spelling of a symbolic identifier is another identifier: whether it equals the
+        # original (an already lower-case name) is decided, per path, like any equality of two identifiers
+        op = n[6:]
+        if obj.name.startswith(op + "("):
+            return obj   # idempotent
+        return Ident(f"{op}({obj.name})")
     if n == "num:is_integer":
         return self.atom(f"is_integer({A.term_str(obj.term)})")
     if n.startswith("re:"):
@@ -3100,6 +3162,28 @@ def _call_builtin_method(self: Interp, info, args, kwargs):
             else:
                 raise Unsupported(f"{n} on {x!r} at {self.site}")
         return SymStr(tuple(out))
+    if isinstance(obj, (SymStr, SymChar)) and n in ("sym:strip", "sym:lstrip", "sym:rstrip"):
+        chars = rest[0] if rest else None
+        if not (chars is None or isinstance(chars, str)):
+            raise Unsupported(f"{n} with abstract argument at {self.site}")
+        items = list(self._as_symstr(obj).items)
+
+        def drops(x) -> bool:
+            pred = (lambda ch: ch.isspace()) if chars is None else (lambda ch: ch in chars)
+            if isinstance(x, str):
+                return pred(x)
+            if isinstance(x, SymChar):
+                return self.char_test(x, pred, f"ch{x.cid} is stripped")
+            if isinstance(x, FinExpr):
+                return self.char_test(SymChar(x.cid), lambda m, f=x.fn: pred(f(m)), f"{x.desc} is stripped")
+            raise Unsupported(f"{n} on {x!r} at {self.site}")
+        if n in ("sym:strip", "sym:lstrip"):
+            while items and drops(items[0]):
+                items.pop(0)
+        if n in ("sym:strip", "sym:rstrip"):
+            while items and drops(items[-1]):
+                items.pop()
+        return SymStr(tuple(items))
     if isinstance(obj, (SymStr, SymChar)) and n.startswith("sym:"):
         arg = rest[0] if rest else None
         if not isinstance(arg, str):
